@@ -1,6 +1,9 @@
 package main
 
 import (
+	"go/types"
+	"strings"
+
 	"golang.org/x/tools/go/ssa"
 )
 
@@ -74,4 +77,57 @@ func (E *Engine) verifyLemma(lm *Lemma) {
 		o.Src += e.Src + " ; "
 	}
 	o.Queries = append(o.Queries, &Query{Hyps: append([]*Term(nil), st.pc...), Goal: And(ens...), Path: "lemma"})
+}
+
+func isErrorType(t types.Type) bool {
+	n, ok := t.(*types.Named)
+	return ok && n.Obj().Pkg() == nil && n.Obj().Name() == "error"
+}
+
+// isSentinel: a package-level variable of type error that is assigned only by
+// its package initialiser is treated as a distinct non-nil constant.
+func (E *Engine) isSentinel(key string) bool {
+	if v, ok := E.sentinel[key]; ok {
+		return v
+	}
+	i := strings.LastIndex(key, ".")
+	pkg := E.L.Pkgs[key[:i]]
+	res := false
+	if pkg != nil {
+		if g, ok := pkg.Members[key[i+1:]].(*ssa.Global); ok {
+			res = true
+			for _, f := range allFunctions(E.L.Prog, pkg) {
+				if f.Name() == "init" {
+					continue
+				}
+				for _, b := range f.Blocks {
+					for _, in := range b.Instrs {
+						if st, ok := in.(*ssa.Store); ok && st.Addr == g {
+							res = false
+						}
+					}
+				}
+			}
+		}
+	}
+	if E.sentinel == nil {
+		E.sentinel = map[string]bool{}
+	}
+	E.sentinel[key] = res
+	if res {
+		E.noteAssumption("package-level error variables assigned only by their initialiser (io.EOF, io.ErrClosedPipe, ...) are distinct non-nil constants")
+	}
+	return res
+}
+
+func (E *Engine) sentinelID(key string) int {
+	if E.sentinelIDs == nil {
+		E.sentinelIDs = map[string]int{}
+	}
+	id, ok := E.sentinelIDs[key]
+	if !ok {
+		id = len(E.sentinelIDs) + 1
+		E.sentinelIDs[key] = id
+	}
+	return id
 }
